@@ -408,6 +408,92 @@ fn main() {
                 }
             }
         }
+        #[cfg(feature = "cb-std")]
+        "big" => {
+            // large boxed buffers in an unoptimised build (C11/C12); a stack overflow kills the process after a STEP line
+            let only: Option<usize> = arg(&args, "--only").and_then(|s| s.parse().ok());
+            let one: Option<cbverif::big_engine::BigCase> =
+                arg(&args, "--case").map(|f| serde_json::from_str(&std::fs::read_to_string(f).expect("read case")).expect("case JSON"));
+            let (part, parts): (usize, usize) = arg(&args, "--part")
+                .map(|s| {
+                    let (a, b) = s.split_once('/').expect("--part i/n");
+                    (a.parse().unwrap(), b.parse().unwrap())
+                })
+                .unwrap_or((0, 1));
+            let t0 = Instant::now();
+            let (evals, nontrivial, failure) = cbverif::big_engine::run(&|i, c| match (&one, only) {
+                (Some(o), _) => o == c,
+                (None, Some(k)) => i == k && i % parts == part,
+                (None, None) => i % parts == part,
+            });
+            let mut rep = json!({"evaluations": evals, "distinct_nontrivial": nontrivial, "wall_s": t0.elapsed().as_secs_f64(),
+                "capacity": cbverif::big_engine::BIG, "optimised": !cfg!(debug_assertions)});
+            if let Some((c, m)) = failure {
+                rep["failure"] = json!({"case": serde_json::to_value(c).unwrap(), "message": m});
+            }
+            if let Some(out) = arg(&args, "--out") {
+                std::fs::write(&out, serde_json::to_string_pretty(&rep).unwrap()).unwrap();
+            }
+            println!("DONE {}", serde_json::to_string(&rep).unwrap());
+        }
+        #[cfg(feature = "cb-std")]
+        "huge" => {
+            // byte buffers with capacities around 2^31..2^32 (boxed; only the pages around the front are touched)
+            let thorough = arg(&args, "--tier").as_deref() == Some("thorough");
+            let seed: u64 = arg(&args, "--seed").and_then(|s| s.parse().ok()).unwrap_or(20260926);
+            let prop_cases: u32 = arg(&args, "--prop-cases").and_then(|s| s.parse().ok()).unwrap_or(if thorough { 200_000 } else { 20_000 });
+            let t0 = Instant::now();
+            let (evals, nontrivial, samples, failure) = cbverif::huge_engine::run(seed, prop_cases, 8);
+            let mut rep = json!({"evaluations": evals, "distinct_nontrivial": nontrivial, "samples": samples, "wall_s": t0.elapsed().as_secs_f64(),
+                "capacities": cbverif::huge_engine::HCAPS, "seed": seed});
+            if let Some((c, m)) = failure {
+                rep["failure"] = json!({"case": serde_json::to_value(&c).unwrap(), "message": m, "rendered": format!("{c:?}")});
+            }
+            std::fs::write(arg(&args, "--out").expect("--out"), serde_json::to_string_pretty(&rep).unwrap()).unwrap();
+        }
+        #[cfg(feature = "cb-std")]
+        "replay-huge" => {
+            let text = std::fs::read_to_string(&args[2]).expect("read replay file");
+            let v: serde_json::Value = serde_json::from_str(&text).expect("replay file is not JSON");
+            let c: cbverif::huge_engine::HCase = serde_json::from_value(v["case"].clone()).expect("case");
+            match cbverif::huge_engine::run_hcase(&c) {
+                Ok(_) => println!("ok"),
+                Err(m) => {
+                    println!("FAIL {m}");
+                    std::process::exit(1);
+                }
+            }
+        }
+        #[cfg(feature = "cb-std")]
+        "zfull" => {
+            // full zero-sized buffers at extreme capacities (C19)
+            let thorough = arg(&args, "--tier").as_deref() == Some("thorough");
+            let t0 = Instant::now();
+            let (evals, nontrivial, samples, failure) = cbverif::zfull_engine::run(thorough);
+            let mut rep = json!({"evaluations": evals, "distinct_nontrivial": nontrivial, "samples": samples, "wall_s": t0.elapsed().as_secs_f64(),
+                "capacities": cbverif::zfull_engine::FCAPS.iter().map(|c| c.to_string()).collect::<Vec<_>>()});
+            if let Some((c, m)) = failure {
+                rep["failure"] = json!({"case": serde_json::to_value(&c).unwrap(), "message": m, "rendered": format!("{c:?}")});
+            }
+            std::fs::write(arg(&args, "--out").expect("--out"), serde_json::to_string_pretty(&rep).unwrap()).unwrap();
+        }
+        #[cfg(feature = "cb-std")]
+        "replay-zfull" => {
+            let text = std::fs::read_to_string(&args[2]).expect("read replay file");
+            let v: serde_json::Value = serde_json::from_str(&text).expect("replay file is not JSON");
+            let c: cbverif::zfull_engine::FCase = serde_json::from_value(v["case"].clone()).expect("case");
+            match std::panic::catch_unwind(|| cbverif::zfull_engine::run_fcase(&c)) {
+                Ok(Ok(_)) => println!("ok"),
+                Ok(Err(m)) => {
+                    println!("FAIL {m}");
+                    std::process::exit(1);
+                }
+                Err(_) => {
+                    println!("FAIL unexpected panic");
+                    std::process::exit(1);
+                }
+            }
+        }
         "alloc" => {
             cbverif::watch::start(60);
             use cbverif::alloc_engine as ae;
